@@ -68,6 +68,11 @@ func (s *State) heap(name string, srt *Sort) *Term {
 		panic(fmt.Sprintf("heap family %s used at sorts %s and %s", name, o, srt))
 	}
 	heapSorts[name] = srt
+	if finalProg != nil && finalProg.finalFamily(name) {
+		// final fields: the contents for objects that exist do not depend on what was executed
+		registerFinalHeapFact(name, srt)
+		return Var("final|"+name, srt)
+	}
 	if s.Epoch.IsConst() && s.Epoch.Val.Sign() == 0 {
 		registerEntryHeapFact(name, srt)
 	}
@@ -97,6 +102,27 @@ func registerEntryHeapFact(name string, srt *Sort) {
 	entryHeapFacts[name] = &LazyForall{Guard: True, Sort: RefSort, Desc: "heap closed at entry: " + name, Body: func(r *Term) *Term {
 		v := Select(h0, r)
 		return Or(ULt(v, a0), ULe(BVu(0x80000000, 32), v))
+	}}
+}
+
+// registerFinalHeapFact: closedness at entry for a family of final fields, restricted to the
+// objects that existed at entry (objects allocated later by code that was not executed
+// symbolically may refer to younger objects).
+func registerFinalHeapFact(name string, srt *Sort) {
+	if _, ok := entryHeapFacts[name]; ok {
+		return
+	}
+	if srt.Kind != SArray || srt.Idx != RefSort || srt.Elem != RefSort {
+		return
+	}
+	if strings.HasSuffix(name, "|tag") || strings.HasSuffix(name, ".tag") {
+		return
+	}
+	h0 := Var("final|"+name, srt)
+	a0 := Var("alloc@0", RefSort)
+	entryHeapFacts[name] = &LazyForall{Guard: True, Sort: RefSort, Desc: "final fields closed at entry: " + name, Body: func(r *Term) *Term {
+		v := Select(h0, r)
+		return Implies(ULt(r, a0), Or(ULt(v, a0), ULe(BVu(0x80000000, 32), v)))
 	}}
 }
 
@@ -313,6 +339,9 @@ func storeArr(s *State, l Loc, v Value) {
 }
 
 func (s *State) load(l Loc) Value {
+	if l.Kind == LChoice {
+		return iteValue(l.Sel, s.load(l.alt(true)), s.load(l.alt(false)))
+	}
 	if l.Kind == LArr {
 		return loadArr(s, l)
 	}
@@ -420,6 +449,19 @@ func nestedStore(arr *Term, idxs []*Term, val *Term) *Term {
 }
 
 func (s *State) store(l Loc, v Value) {
+	if l.Kind == LChoice {
+		// write the value to the selected alternative, leave the other as it is; the write is
+		// logged under the selector so that the frame condition concerns the selected one only
+		g := s.G
+		la, lb := l.alt(true), l.alt(false)
+		oa, ob := s.load(la), s.load(lb)
+		s.G = And(g, l.Sel)
+		s.store(la, iteValue(l.Sel, v, oa))
+		s.G = And(g, Not(l.Sel))
+		s.store(lb, iteValue(l.Sel, ob, v))
+		s.G = g
+		return
+	}
 	switch l.Kind {
 	case LHeap:
 		prefix, _, _ := pathString(l.Root, l.Path)
